@@ -1445,16 +1445,47 @@ def gen_c11_program(seed, start, count):
 
 
 def gen_c11_reject_case(seed, idx):
+    """enums that the documentation says are refused: no marked variant among several, several marked variants,
+    a value on a variant's #[default(..)] — for every number of variants (a single variant too), every position,
+    every shape of variant, both entry points"""
     rng = random.Random(seed * 4000073 + idx)
-    k = rng.choice(['none', 'several', 'value'])
+    k = ['none', 'several', 'value'][idx % 3]
+    nv = rng.choice([1, 2, 2, 3, 4]) if k == 'value' else rng.choice([2, 2, 3, 4])
+    names = ['A', 'B', 'C', 'D'][:nv]
+    shapes = [rng.choice(['', '(u8)', '{ a: u8 }', '(u8, bool)', '()', '{}']) for _ in names]
+
+    def ctor(i):
+        sh = shapes[i]
+        v = 'X::' + names[i]
+        if sh in ('',):
+            return v
+        if sh == '(u8)':
+            return v + '(7)'
+        if sh == '{ a: u8 }':
+            return v + ' { a: 7 }'
+        if sh == '(u8, bool)':
+            return v + '(7, true)'
+        return v + (' {}' if sh == '{}' else '()')
+    marks = [''] * nv
     if k == 'none':
-        item = '#[derive_ex(Default)] pub enum X { A, B(u8) }'
         msg = 'does not exist'
     elif k == 'several':
-        item = '#[derive_ex(Default)] pub enum X { #[default] A, #[default] B(u8), C }'
+        cnt = rng.randint(2, nv)
+        for i in rng.sample(range(nv), cnt):
+            marks[i] = rng.choice(['#[default] ', '#[default] ', '#[default(_)] ', '#[default(_, bound())] '])
         msg = 'multiple variants'
     else:
-        item = '#[derive_ex(Default)] pub enum X { A, #[default(X::A)] B(u8) }'
+        i = rng.randrange(nv)
+        j = rng.randrange(nv)
+        marks[i] = '#[default(%s)] ' % rng.choice([ctor(j), ctor(j) + ', bound()', 'Self::%s' % names[j] if shapes[j] == '' else ctor(j)])
         msg = 'cannot specify a default value'
-    return dict(id=f'c11r/{seed}/{idx}', src='#![allow(dead_code)]\nuse derive_ex::derive_ex;\n' + item + '\n', item=item,
-                traits=['Default'], desc=dict(kind=k), expect_error=msg)
+    body = ', '.join(marks[i] + names[i] + shapes[i] for i in range(nv))
+    entry = rng.choice(['attr', 'derive'])
+    if entry == 'attr':
+        item = '#[derive_ex(Default)] pub enum X { %s }' % body
+        use = 'use derive_ex::derive_ex;'
+    else:
+        item = '#[derive(Ex)] #[derive_ex(Default)] pub enum X { %s }' % body
+        use = 'use derive_ex::Ex;'
+    return dict(id=f'c11r/{seed}/{idx}', src='#![allow(dead_code)]\n' + use + '\n' + item + '\n', item=item,
+                traits=['Default'], desc=dict(kind=k, variants=nv, entry=entry), expect_error=msg)
